@@ -459,6 +459,54 @@ def r3_splice(program, folder, rep):
     rep.floor("C20-R3", 4)
 
 
+def r3_returned_structs(program, rep):
+    """The struct definitions boot() returns are the very objects whose "sv"
+    defaults received the options and were packed into the image (decided on
+    value terms: a call result is a fresh object per call site; helpers are
+    followed by the term engine)."""
+    from ..terms import all_method_calls
+    fn = program.get(MOD + ":boot")
+    inst = qual(fn)
+    T = Terms(fn)
+    rets = [r for r in returns_of(fn) if r.value is not None]
+    if len(rets) != 1:
+        raise AnalysisError("boot: %d returns of a value" % len(rets))
+    RET = T.term(rets[0].value, T.cfg.node_of(rets[0]))
+    if RET[0] != "callv":
+        raise AnalysisError("boot: the value returned is not the result of "
+                            "one call")
+    uses = all_method_calls(T, ["update_default_values", "pack"])
+    ups = [u for u in uses if u[2].func.attr == "update_default_values"]
+    pks = [u for u in uses if u[2].func.attr == "pack" and
+           u[3][0] == "item" and u[3][2] == ("const", b"sv")]
+    if not ups or not pks:
+        raise AnalysisError("boot: the update of the 'sv' defaults / its "
+                            "packing was not found")
+    bad = None
+    for v, n, c, recv, args in ups + pks:
+        if recv == ("item", RET, ("const", b"sv")):
+            continue
+        if recv[0] == "item" and recv[1][0] == "callv" and \
+                recv[2] == ("const", b"sv"):
+            bad = (c, recv[1][-1])
+            continue
+        raise AnalysisError("boot: the struct that is updated / packed is "
+                            "not read from a struct table in a form these "
+                            "rules analyse")
+    rep.check(bad is None, "C20-R3", inst, "the struct definitions returned "
+              "are the objects whose 'sv' defaults were updated and packed",
+              construct="returned structs (object identity)",
+              node=bad[0] if bad else rets[0],
+              fail="the 'sv' struct that receives the options / is packed "
+                   "into the image comes from another call (site %s) than "
+                   "the table boot() returns: the definitions returned keep "
+                   "the file defaults and do not describe what was sent" %
+                   (bad[1] if bad else ""))
+
+
+r3_returned_structs.helper_aware = True
+
+
 def r3_pack_fields(program, rep):
     """Struct.pack lays down the default of every field: the store of a
     field's packed default is on every path through the loop over the
@@ -637,6 +685,7 @@ def check(program, rep):
     rep.guard("C20-R2", r2_sequence, program, folder, rep)
     rep.guard("C20-R3", r3_splice, program, folder, rep)
     rep.guard("C20-R3", r3_pack_fields, program, rep)
+    rep.guard("C20-R3", r3_returned_structs, program, rep)
     rep.guard("C20-R4", r4_packet, program, folder, rep)
     return finish(rep, program, EXPLANATION, NOT_DECIDED,
                   trusted=["effects.py transfer functions",
